@@ -325,3 +325,216 @@ def run_main(fn):
         code = 2
     sys.stdout.flush()
     sys.exit(code)
+
+
+# ----------------------------------------------------------------------------- generic "tree == reference pieces" machinery
+
+class Target:
+    """one equivalence obligation: the tree exported at result step `export_step` (named `tree`, valid after
+    steps[:upto]) must equal the reference piece list for all inputs.
+    eps: None = exact, else absolute tolerance (rounding regime); box: None or bound on |x_i| (rounding regime);
+    tighten: None or tau -> iterate over *reference* pieces tightened by tau (LP-tolerance policy)"""
+
+    def __init__(self, label, tree, export, upto, ref, eps=None, box=None, tighten=None, sig="value", breakpoint_margin=None):
+        self.label, self.tree, self.export, self.upto, self.ref = label, tree, export, upto, ref
+        self.eps, self.box, self.tighten, self.sig = eps, box, tighten, sig
+        self.breakpoint_margin = breakpoint_margin
+
+
+def solve_targets(targets, conv, in_dim, want_points=False, rng=None, canary=False):
+    """returns dict with candidates (solver witnesses), undecided, stats, validation points, canary verdict"""
+    from core import find_difference, Piece, Aff
+    q = Q(in_dim)
+    out = {"cands": [], "undecided": [], "points": [], "canary": None, "pieces": 0, "thin": 0}
+    for ti, t in enumerate(targets):
+        tr = Tree(t.export)
+        tp = tr.pieces(conv)
+        out["pieces"] += len(tp)
+        extra = []
+        if t.box is not None:
+            extra = [z3.And(x <= t.box, x >= -t.box) for x in q.xs]
+        if t.tighten is not None:
+            bad = find_difference(q, t.ref, tp, eps=t.eps, tighten=t.tighten, extra=extra, tag=t.label)
+            # count reference pieces that are non-empty but too thin to contain a tightened point
+        else:
+            bad = find_difference(q, tp, t.ref, eps=t.eps, extra=extra, tag=t.label)
+        for f, asserts, verdict in bad:
+            if verdict == "unknown":
+                out["undecided"].append("%s piece at node %s" % (t.label, f.node))
+                continue
+            m, ok = q.witness_f64(asserts)
+            out["cands"].append({"target": ti, "point": [str(v) for v in m] if m else None, "exact_f64": ok})
+        if canary and out["canary"] is None:
+            for i, p_ in enumerate(t.ref):
+                if p_.val is not None and p_.val.outdim > 0:
+                    conds = zconds(p_.conds, q.xs) if t.tighten is None else [
+                        __import__("core").zclosed(c.closed(-t.tighten), q.xs) for c in p_.conds]
+                    r0, _ = q.check(conds + extra)
+                    if r0 == "sat":
+                        c2 = list(p_.val.c)
+                        c2[0] = c2[0] + 1
+                        wrong = t.ref[:i] + [Piece(p_.conds, Aff(p_.val.M, c2, p_.val.n))] + t.ref[i + 1:]
+                        if t.tighten is not None:
+                            out["canary"] = len(find_difference(q, wrong, tp, eps=t.eps, tighten=t.tighten, extra=extra)) > 0
+                        else:
+                            out["canary"] = len(find_difference(q, tp, wrong, eps=t.eps, extra=extra)) > 0
+                        break
+        if want_points:
+            pts = interior_and_boundary_points(q, tp, max_pieces=10, rng=rng)
+            out["points"].append((ti, [[str(v) for v in m] for m in pts]))
+    out["stats"] = (q.stats.sat, q.stats.unsat, q.stats.unknown, q.stats.solver_s, q.stats.samples)
+    return out
+
+
+def absorb_stats(chk, tup):
+    st = Stats()
+    st.sat, st.unsat, st.unknown, st.solver_s, st.samples = tup
+    chk.stats.add(st)
+
+
+def replay_targets(chk, items, conv, sig_prefix, describe=None):
+    """items: list of (case, targets, solve_out). Runs solver witnesses and validation points through the real
+    code (one driver run) and reports reproduced violations."""
+    rcases = []
+    index = []
+    for ci, (case, targets, so) in enumerate(items):
+        for cand in so["cands"]:
+            if cand["point"] is None:
+                chk.unreplayed.append("%s: solver gave no model" % case["id"])
+                continue
+            t = targets[cand["target"]]
+            rid = "r%d" % len(rcases)
+            rcases.append({"id": rid, "steps": case["steps"][:t.upto] + [
+                {"op": "eval", "tree": t.tree, "points": [[hex_of_float(float(Fraction(s))) for s in cand["point"]]]}]})
+            index.append((rid, ci, cand["target"], "cand", [cand["point"]]))
+        for ti, pts in so["points"]:
+            if not pts:
+                continue
+            t = targets[ti]
+            rid = "r%d" % len(rcases)
+            rcases.append({"id": rid, "steps": case["steps"][:t.upto] + [
+                {"op": "eval", "tree": t.tree, "points": [[hex_of_float(float(Fraction(s))) for s in p] for p in pts]}]})
+            index.append((rid, ci, ti, "validate", pts))
+    if not rcases:
+        return
+    rres = run_driver(rcases, tag="replay")
+    for rid, ci, ti, kind, pts in index:
+        case, targets, so = items[ci]
+        t = targets[ti]
+        r = rres[rid][-1]
+        if not r["ok"]:
+            chk.malfunction("replay of %s panics: %s" % (case["id"], r.get("panic")))
+            continue
+        tp = None
+        for ps, real in zip(pts, r["out"]):
+            xf = [Fraction(float(Fraction(s))) for s in ps]
+            if kind == "validate":
+                if tp is None:
+                    tp = Tree(t.export).pieces(conv)
+                chk.validation["points"] += 1
+                d = compare_eval(real, tp, xf)
+                if d is None:
+                    chk.validation["agree"] += 1
+                else:
+                    chk.malfunction("encoding of %s/%s disagrees with the real evaluate at %s: %s" % (case["id"], t.label, ps, d))
+                continue
+            try:
+                rp, exp = eval_pieces(t.ref, xf)
+            except EncoderError as e:
+                chk.malfunction("reference of %s/%s is not a partition: %s" % (case["id"], t.label, e))
+                continue
+            tol = VALUE_TOL if t.eps is None else t.eps
+            d = value_mismatch(real, exp, tol=tol)
+            if d is not None and t.tighten is not None:
+                # LP-tolerance policy: only count it if the reference piece contains xf with margin tau/2
+                inside = all((dot_(c.a, xf) - c.b >= t.tighten / 2 * l1_(c.a)) if c.strict else
+                             (c.b - dot_(c.a, xf) >= t.tighten / 2 * l1_(c.a)) for c in rp.conds)
+                if not inside:
+                    d = None
+            if d is None:
+                chk.unreplayed.append("%s/%s at %s: solver witness does not reproduce natively" % (case["id"], t.label, ps))
+                continue
+            if "panic" in d:
+                sig = "panic"
+            elif exp is None or "undefined where" in d:
+                sig = "definedness"
+            else:
+                sig = "value"
+            extra_sig = describe(case, t, real, exp, xf) if describe else None
+            full = "%s/%s/%s" % (sig_prefix, t.sig, extra_sig or sig)
+            chk.report(full, "%s %s at x=%s: %s" % (case["id"], t.label, [float(v) for v in xf], d),
+                       {"kind": "eval", "case": {"id": case["id"], "steps": case["steps"][:t.upto]}, "tree": t.tree,
+                        "point": point_hex(xf), "expected": None if exp is None else [str(e) for e in exp],
+                        "meta": case.get("meta")})
+
+
+def dot_(a, x):
+    return sum((ai * xi for ai, xi in zip(a, x)), Fraction(0))
+
+
+def l1_(a):
+    return sum((abs(v) for v in a), Fraction(0))
+
+
+def _target_worker(args):
+    modname, case, res, conv, canary, want_points = args
+    mod = __import__(modname)
+    try:
+        targets, in_dim, findings = mod.build_targets(case, res, conv)
+    except EncoderError as e:
+        return {"id": case["id"], "error": str(e)}
+    so = solve_targets(targets, conv, in_dim, want_points=want_points, canary=canary) if targets else {
+        "cands": [], "undecided": [], "points": [], "canary": None, "pieces": 0, "stats": (0, 0, 0, 0.0, [])}
+    so["id"] = case["id"]
+    so["findings"] = findings
+    so["ntargets"] = len(targets)
+    return so
+
+
+def run_target_check(chk, cases, modname, sig_prefix, conv, canary_every=10, tag="t", describe=None, procs=16):
+    """generic flow: driver run -> per case targets -> solver -> native replay; returns dict id -> (case, res, so)"""
+    from multiprocessing import Pool
+    mod = __import__(modname)
+    results = run_driver([{"id": c["id"], "steps": c["steps"]} for c in cases], tag=tag)
+    jobs = [(modname, c, results[c["id"]], conv, i % canary_every == 0, i % canary_every == 0) for i, c in enumerate(cases)]
+    if procs > 1 and len(jobs) > 8:
+        with Pool(procs) as pool:
+            outs = pool.map(_target_worker, jobs, chunksize=max(1, min(8, len(jobs) // (procs * 4) or 1)))
+    else:
+        outs = [_target_worker(j) for j in jobs]
+    items = []
+    ret = {}
+    for case, so in zip(cases, outs):
+        chk.programs += 1
+        if "error" in so:
+            chk.malfunction("%s: encoder error %s" % (case["id"], so["error"]))
+            continue
+        absorb_stats(chk, so["stats"])
+        chk.count("pieces", so["pieces"])
+        chk.count("targets", so["ntargets"])
+        if so["pieces"] > so["ntargets"]:
+            chk.nontrivial.add(case["id"])
+        chk.oblige(True, max(so["pieces"] - len(so["cands"]) - len(so["undecided"]), 0))
+        for u in so["undecided"]:
+            chk.undecide("%s: %s" % (case["id"], u), "solver unknown/timeout")
+        if so["canary"] is not None:
+            chk.canaries["expected_sat"] += 1
+            chk.canaries["fired"] += 1 if so["canary"] else 0
+        for sig, what, kind in so["findings"]:
+            chk.report("%s/%s" % (sig_prefix, sig), "%s: %s" % (case["id"], what),
+                       {"kind": kind, "case": {"id": case["id"], "steps": case["steps"]}, "meta": case.get("meta")})
+        targets, _, _ = mod.build_targets(case, results[case["id"]], conv) if (so["cands"] or so["points"]) else ([], 0, [])
+        if so["cands"] or so["points"]:
+            items.append((case, targets, so))
+        if len(chk.samples) < 4 and so["pieces"] > 2:
+            chk.sample({"case": case["id"], "meta": case.get("meta"), "pieces": so["pieces"],
+                        "steps": [s["op"] for s in case["steps"]]})
+        ret[case["id"]] = (case, results[case["id"]], so)
+    if chk.canaries["expected_sat"] and chk.canaries["fired"] != chk.canaries["expected_sat"]:
+        chk.malfunction("canary (deliberately wrong reference) not refuted: %s" % chk.canaries)
+    replay_targets(chk, items, conv, sig_prefix, describe=describe)
+    return ret
+
+
+def step_panics(res, upto=None):
+    return [(i, r["panic"]) for i, r in enumerate(res[:upto]) if not r["ok"]]
